@@ -1,202 +1,2 @@
-"""C07 / C08 / C15 - disk images: round trip, structural validity, exact space accounting (one set of runs; each
-property owns its clauses)."""
-import random, time, multiprocessing as mp
-from harness import tlc, containers as ct
-
-OWN = {"C07": {"roundtrip"},
-       "C08": {"slot", "chain", "marker", "len", "stream", "dirfields", "outside", "size", "old-disturbed"},
-       "C15": {"ngran", "took-used-granule", "acct-should-fit", "acct-should-fail", "slot"},
-       "C09": {"old-disturbed", "roundtrip"}}
-GB = ct.GB
-
-
-def gates(ctx, thorough):
-    rs = tlc.check_models([("MC_Disk", "MC_Disk4" if thorough else "MC_Disk", 6, "8g"), ("MC_Disk", "MC_DiskSmall", 5, "8g"),
-                           ("MC_Disk", "MC_DiskSlots", 2, "4g"), ("MC_Disk", "MC_DiskGrans", 3, "6g")])
-    inv = ["ChainsValid", "ChainsDisjoint", "NoOrphan", "LengthConsistent", "Capacity", "FitsIfRoom", "OldFilesStable (action property)"]
-    ctx.add_model("MC_Disk(real geometry, depth %d)" % (4 if thorough else 3), rs[0], {"invariants": inv})
-    ctx.add_model("MC_DiskSmall(any allocation order / fragmentation)", rs[1], {"invariants": inv})
-    ctx.add_model("MC_DiskSlots(74 one-granule adds)", rs[2])
-    ctx.add_model("MC_DiskGrans(granule exhaustion, reversed fill order)", rs[3])
-    recs, r = tlc.export("MC_DiskLen")
-    if recs[0]["bad"] != 0:
-        raise tlc.MachineryError("MC_DiskLen: length bookkeeping fails for %d lengths" % recs[0]["bad"])
-    ctx.cov["models"]["MC_DiskLen"] = {"kind": "theorem evaluated by TLC, exhaustive", "stream_lengths": recs[0]["lengths"], "wall_s": round(r.wall, 2)}
-
-
-def judge(ctx, name, hists, t0):
-    verd, st = tlc.bulk("Tr_Disk", hists, nproc=6, min_chunk=8, heap="6g", timeout=3000)
-    own = OWN[ctx.prop]
-    nv = nsteps = 0
-    for h in hists:
-        v = verd[h["id"]]
-        for c in v["classes"]:
-            ctx.add_class("diskfile|" + "|".join(str(c[k]) for k in ("kind", "datalen", "mod", "ngran", "adj", "namelen", "extlen")))
-        ctx.add_class("hist|%d|%s|%s" % (min(len(h["events"]), 5), "perm" if h["order"] else "default", h["events"][-1]["result"] if h["events"] else ""))
-        for step, items in enumerate(v["verdicts"]):
-            nsteps += 1
-            for it in items:
-                if it["clause"] not in own:
-                    continue
-                item = {"clause": it["clause"], "class": dict(it["class"], order="perm" if h["order"] else "default"), "symptom": {"why": (it["symptom"]["why"] or "").split(":")[0], "n": it["symptom"]["n"]}}
-                ev = h["events"][step]
-                rp = {"kind": "disk", "order": h["order"], "step": step, "file_no": it["file"],
-                      "files": [dict(e["file"], data="(%d bytes)" % len(e["file"]["data"])) for e in h["events"][:step + 1]],
-                      "lens": [len(e["file"]["data"]) for e in h["events"][:step + 1]], "result": ev["result"], "exc": ev["exc"], "listed_exc": ev["listed"]["exc"]}
-                if ctx.report(item, rp) == "violation":
-                    nv += 1
-    ctx.add_suite(name, len(hists), nsteps, time.time() - t0, {"violating_items": nv})
-    h = hists[len(hists) // 2]
-    ctx.sample({"suite": name, "order": h["order"][:8], "adds": [[e["file"]["type"], e["file"]["dtype"], len(e["file"]["data"]), e["result"]] for e in h["events"][:6]]})
-
-
-def run_histories(ctx, name, specs):
-    t0 = time.time()
-    with mp.Pool(16) as pool:
-        hists = pool.map(ct.disk_history, [(k, o, fs) for k, (o, fs) in enumerate(specs)], chunksize=4)
-    judge(ctx, name, hists, t0)
-
-
-def boundary_histories(rnd, thorough):
-    specs = []
-    near = list(range(-11, 3))
-    Ls = [0, 1, 2, 3, 5, 10, 11, 255, 256, 257, 266] + [GB * k + d for k in (1, 2) for d in near] + [GB * 3, GB * 3 + 1, 20000, 65535 + 10]
-    if thorough:
-        Ls += [256 * k + d for k in range(1, 40) for d in (-10, -1, 0, 1, 10)] + [GB * k + d for k in range(3, 29) for d in (-10, -5, -1, 0, 1, 5)]
-    for kind in ("ML", "BAS", "ASC", "MLA", "DAT", "BASA", "TXT", "TXB"):
-        extra = ct.KINDS[kind][2]
-        for L in (Ls if kind in ("ML", "BAS", "ASC") else [1, 11, 300, 2303, 2304, 2305, 2309, 4609]):
-            if L - extra < 0 or L - extra > 65535:
-                continue
-            specs.append((None, [ct.disk_file(rnd, "F", kind, L)]))
-    addrs = [0, 1, 0x7F, 0x80, 0xFF, 0x100, 0x101, 0xFFF, 0x1000, 0x7FFF, 0x8000, 0xFF00, 0xFFFF]
-    for i, a in enumerate(addrs):                      # load / entry addresses at every byte boundary
-        f = ct.disk_file(rnd, "AD%d" % i, "ML", 40)
-        f["a1"], f["a2"] = a, addrs[(i * 5 + 2) % len(addrs)]
-        specs.append((None, [f]))
-    for nm, ext in (("A", "BIN"), ("ABCDEFGH", "BIN"), ("ABCDEFGHI", "BIN"), ("abcdefghijkl", "bas"), ("lower", ""), ("Mixed1", "Tx"), ("X1", "ABCD")):
-        specs.append((None, [ct.disk_file(rnd, nm, "ML", 100, ext=ext)]))
-    return specs
-
-
-def random_histories(rnd, n, perm_share=0.4):
-    specs = []
-    lens = [0, 1, 10, 245, 246, 256, 500, 2293, 2294, 2295, 2299, 2303, 2304, 2305, 2309, 2310, 4598, 4599, 4603, 4608, 4609, 7000, 12000, 20000]
-    for _ in range(n):
-        order = None
-        if rnd.random() < perm_share:
-            order = list(range(68))
-            rnd.shuffle(order)
-        k = rnd.choice([2, 3, 3, 4, 6])
-        fs = [ct.disk_file(rnd, "G%d" % i, rnd.choice(["ML", "ML", "BAS", "ASC", "MLA", "DAT", "BASA", "TXT"]), rnd.choice(lens)) for i in range(k)]
-        specs.append((order, fs))
-    return specs
-
-
-def exhaustion_histories(rnd, thorough):
-    specs = [(None, [ct.disk_file(rnd, "S%d" % k, "ML", 20) for k in range(75)]),
-             (None, [ct.disk_file(rnd, "B%d" % k, "ML", GB * 3 - 20) for k in range(25)]),
-             (None, [ct.disk_file(rnd, "E%d" % k, "ASC", GB) for k in range(36)]),
-             (list(reversed(range(68))), [ct.disk_file(rnd, "R%d" % k, "BAS", 5000) for k in range(24)])]
-    for _ in range(6 if thorough else 1):
-        order = list(range(68))
-        rnd.shuffle(order)
-        specs.append((order, [ct.disk_file(rnd, "M%d" % k, rnd.choice(["ML", "BAS", "ASC"]), rnd.choice([30, 2304, 2400, 5000, 9000])) for k in range(80)]))
-    return specs
-
-
-def model_sequences(ctx, rnd, thorough):
-    """spec -> code: the add-sequences of the abstract machine, with the outcome it requires of each add"""
-    t0 = time.time()
-    recs, wall = tlc.cached_export_parts("Gen_DiskSeq", 6, env={"DEPTH": "3" if thorough else "2"})
-    if len(recs) > (4000 if thorough else 350):
-        recs = rnd.sample(recs, 4000 if thorough else 350)
-    specs = []
-    for r in recs:
-        fs = []
-        for i, L in enumerate(r["lens"]):
-            kind = rnd.choice([k for k in ("ML", "ML", "BAS", "ASC", "MLA", "DAT", "BASA") if 0 <= L - ct.KINDS[k][2] <= 65535])
-            fs.append(ct.disk_file(rnd, "Q%d" % i, kind, L))
-        specs.append((None, fs))
-    with mp.Pool(16) as pool:
-        hists = pool.map(ct.disk_history, [(k, o, fs) for k, (o, fs) in enumerate(specs)], chunksize=4)
-    for r, h in zip(recs, hists):
-        got = [e["result"] for e in h["events"]]
-        for i, exp in enumerate(r["expect"]):
-            if i >= len(got):
-                break
-            g = "ok" if got[i] == "ok" else "fail"
-            if exp != "either" and exp != g and ctx.prop == "C15":
-                ctx.report({"clause": "model-outcome", "class": {"lens": r["lens"], "step": i}, "symptom": {"expected": exp, "got": g}}, {"kind": "disk", "lens": r["lens"], "expect": r["expect"], "got": got})
-    judge(ctx, "model-sequences", hists, t0)
-
-
-def spec_written_images(ctx, rnd, n):
-    """reader direction: well-formed images with chains in any order / not adjacent, written by the specification"""
-    if ctx.prop not in ("C07",):
-        return
-    t0 = time.time()
-    ins = []
-    for k in range(n):
-        free = list(range(68))
-        rnd.shuffle(free)
-        if k % 4 == 0:
-            free = sorted(free)         # physically ascending chains as a control group
-        nf = rnd.choice([1, 1, 2, 3])
-        files, chains = [], []
-        for i in range(nf):
-            kind = rnd.choice(["ML", "ML", "BAS", "ASC", "MLA", "DAT", "BASA"])
-            L = rnd.choice([1, 11, 300, 2299, 2300, 2304, 2305, 2309, 2310, 4600, 4608, 4609, 4613, 7000, 11520])
-            f = ct.disk_file(rnd, "W%d" % i, kind, L)
-            sl = len(f["data"]) + ct.KINDS[kind][2]
-            ng = sl // GB + 1 if rnd.random() < 0.7 or sl % GB else max(1, sl // GB)
-            if sl == 0:
-                ng = 1
-            files.append(ct.jfile(f))
-            chains.append([free.pop() for _ in range(ng)])
-        ins.append({"id": k, "files": files, "chains": chains})
-    out, st = tlc.bulk("Gen_Disk", ins, cfg="Gen_Disk", nproc=6, min_chunk=8, heap="6g")
-    recs = []
-    for i in ins:
-        o = out[i["id"]]
-        buf = [0xFF] * ct.IMG
-        buf[ct.FAT_OFF:ct.FAT_OFF + 68] = o["fat"]
-        buf[ct.FAT_OFF + 68:ct.FAT_OFF + 256] = [0] * 188
-        buf[ct.DIR_OFF:ct.DIR_OFF + 2304] = o["dir"]
-        for gr in o["grans"]:
-            buf[ct.seek(gr["g"]):ct.seek(gr["g"]) + GB] = gr["b"]
-        recs.append({"id": i["id"], "files": i["files"], "chains": i["chains"], "listed": ct.list_disk(buf)})
-    verd, st = tlc.bulk("Tr_DiskRead", recs, cfg="Tr_DiskRead", nproc=6, min_chunk=8, heap="6g")
-    nv = 0
-    for r in recs:
-        v = verd[r["id"]]
-        for c in v["classes"]:
-            ctx.add_class("specimg|" + "|".join(str(c[k]) for k in ("kind", "mod", "ngran", "adj")))
-        if v["firstbad"]:
-            fb = min(v["firstbad"], len(v["classes"]))
-            item = {"clause": "roundtrip", "class": dict(v["classes"][fb - 1], order="spec-written"), "symptom": {"why": v["exc"].split(":")[0], "n": 0}}
-            if ctx.report(item, {"kind": "disk-read", "chains": r["chains"], "lens": [len(f["data"]) for f in r["files"]], "types": [f["type"] for f in r["files"]], "listed_exc": r["listed"]["exc"]}) == "violation":
-                nv += 1
-    ctx.add_suite("spec-written-images", len(recs), len(recs), time.time() - t0, {"violating_items": nv})
-
-
-def run(ctx):
-    thorough = ctx.tier == "thorough"
-    rnd = random.Random(ctx.seed * 2038074743 + int(ctx.prop[1:]))
-    gates(ctx, thorough)
-    model_sequences(ctx, rnd, thorough)
-    run_histories(ctx, "boundary-lengths", boundary_histories(rnd, thorough))
-    run_histories(ctx, "random-histories", random_histories(rnd, 1500 if thorough else 120))
-    run_histories(ctx, "exhaustion", exhaustion_histories(rnd, thorough))
-    spec_written_images(ctx, rnd, 600 if thorough else 60)
-    ctx.cov["rule"] = ("add-sequences of the abstract allocation machine (TLC-exported), single files at every stream length within 11 bytes of a granule multiple and at sector "
-                       "boundaries x {ML, BASIC, ASCII}, names/extensions of all length classes, random 2-6 file histories under default and permuted fill orders, runs to a full "
-                       "disk (slots, granules, mixtures); after every add the image delta is judged by TLC (Tr_Disk) per file; for C07 also images written by the specification "
-                       "with arbitrary chains. distinct_nontrivial = stored-file classes (kind, data length class, stream length mod granule, granules, physical adjacency of "
-                       "the chain, name/extension length) + history shapes")
-    ctx.assumptions += ["an add that fails ends the history (the in-memory image of a failed add is not reused)"]
-
-
-def replay(ctx, rp):
-    print(rp["replay"])
-    return 0
+"""C08 - same runs as C07 (disk histories judged by Tr_Disk); owns its own clauses (harness/props/c07.py OWN)."""
+from harness.props.c07 import run, replay  # noqa
